@@ -323,3 +323,8 @@ def run(S):
     rule_desc(S)
     rule_wul(S)
     rule_dbm(S)
+    # R-MUL mutate-under-lock and the link/parent pairing (shared with C08, as planned in DESIGN section 5 / C01)
+    from checks.C08 import rule_mul, rule_link
+    la = lock_analysis(S.facts())
+    rule_mul(S, la)
+    rule_link(S, la)
